@@ -60,6 +60,28 @@ def foreign_event_type(name: str):
     return _FOREIGN_TYPES[name]
 
 
+def make_init_listener(mode, snapf, regf):
+    """A listener of INITIALIZED_EVENT.  It is told that the statistic "has been initialised": inside notify it reads
+    every reported value of the statistic it is handed (they must be those of a freshly initialised statistic) and, in
+    mode 'register', registers the seed observation of the current initialize call -- the first observation since
+    that initialisation."""
+    from pydsol.core.pubsub import EventListener
+
+    class InitListener(EventListener):
+        def __init__(self):
+            self.seen, self.errors, self.seed = [], [], None
+
+        def notify(self, event):
+            stat = event.content
+            try:
+                self.seen.append(snapf(stat))
+                if mode == "register" and self.seed is not None:
+                    regf(stat, self.seed)
+            except Exception as exc:  # noqa
+                self.errors.append(type(exc).__name__ + ": " + str(exc)[:80])
+    return InitListener()
+
+
 def dec_impl(d):
     """the Python object handed to the implementation"""
     return _quantity(d) if "q" in d else dec(d)
